@@ -753,7 +753,7 @@ func spaces(tier string) []kit.Space {
 		ts = []*treeSpace{
 			newTreeSpace("deep(5 names,depth<=3,<=3 paths)", deep, 0, 3, 2, 3),
 			newTreeSpace("wide(5 names,depth<=2,3..5 paths)", wide, 3, 5, 0, 9),
-			newTreeSpace("narrow(3 names,depth<=3,3..5 paths)", narrow, 3, 5, 0, 5),
+			newTreeSpace("narrow(3 names,depth<=3,3..4 paths)", narrow, 3, 4, 0, 9),
 		}
 	} else {
 		ts = []*treeSpace{
@@ -778,15 +778,15 @@ func main() {
 	kit.Main(&kit.Check{
 		ID:    "C23",
 		Level: "model_checking",
-		Rule: "every set of k slash-separated paths from a universe: deep = names {a,b,a.txt,ü,.h} at depth<=3 (155 paths) with k<=2 (thorough k<=3); wide = same names at depth<=2 (30 paths) with k=3..4 (thorough 3..5); narrow = names {a,a.txt,ü} at depth<=3 (39 paths) with k=3 (thorough 3..5). " +
-			"Contents: for k<=2 every assignment of {nil,\"\",\"x\"}; for k>=3 the three rotations of (nil,\"\",\"x\") over the sorted paths (one rotation only for quick wide k=4, thorough deep k=3 and narrow k=5). Sets where one path is a directory prefix of another are enumerated but skipped (class conflicting-set). " +
+		Rule: "every set of k slash-separated paths from a universe: deep = names {a,b,a.txt,ü,.h} at depth<=3 (155 paths) with k<=2 (thorough k<=3); wide = same names at depth<=2 (30 paths) with k=3..4 (thorough 3..5); narrow = names {a,a.txt,ü} at depth<=3 (39 paths) with k=3 (thorough 3..4). " +
+			"Contents: for k<=2 every assignment of {nil,\"\",\"x\"}; for k>=3 the three rotations of (nil,\"\",\"x\") over the sorted paths (one rotation only for quick wide k=4 and thorough deep k=3). Sets where one path is a directory prefix of another are enumerated but skipped (class conflicting-set). " +
 			"Each tree owns 8 consecutive indices (report slots, slot j reports the j-th defect class of the tree); only slot 0 counts as an evaluation of the tree: non-trivial = slot 0 of a non-conflicting tree; distinct indices at slot 0 are distinct (set, contents) pairs. " +
 			"Round 2: inside every tree a name is listed by its parent exactly when it opens, fs.WalkDir visits everything once, and the FileInfo values of fs.Stat, of the handle and of DirEntry.Info are equal. " +
 			"handle.file: every sequence of <=4 operations over {Read(0), Read(1), Read(len-1), Read(len), Read(len+1), Stat, Close} × contents {nil, \"\", \"x\", \"xyz\"} × 2 paths; handle.dir: every sequence of <=4 operations over {ReadDir(-1), ReadDir(0), ReadDir(1), ReadDir(2), Read(1 byte), Read(0 bytes), Stat, Close} × 3 directories (1, 2 and 4 entries); non-trivial = at least 2 operations. " +
 			"oddkeys: every set of 1..2 (thorough 1..3) keys out of 22 (invalid paths: . \"\" a/ /a a//b a/./b a/../b ./a a/. .. ../a // a/b/ a\\b, long and unicode names, and a, a/b, a/b/c, b, a.txt so that a name is file and directory), 8 report slots per set",
 		Assumptions: []string{
 			"sets of 4 and 5 paths are explored on the two reduced universes only (30 and 39 paths); the full 155-path universe up to 2 (thorough 3) paths",
-			"for 3 or more files contents are the 3 rotations of (nil, \"\", \"x\") (a single one for the two largest thorough blocks), not the full product",
+			"for 3 or more files contents are the 3 rotations of (nil, \"\", \"x\") (a single one for the largest blocks), not the full product",
 			"oracle = testing/fstest.TestFS with every file and implied directory as expected names, plus a sorted reference listing for ReadDir paging, per io/fs.ReadDirFile documentation",
 			"fstest's 'expected but not found' is not reported separately when the same run reports a directory entry whose IsDir is wrong (fstest cannot descend then)",
 			"keys are defect classes: fstest messages are mapped to the same classes as the explicit oracle (path names stripped)",
